@@ -24,6 +24,30 @@ def run(tier):
     rep.cov["traces_validated_against_impl"] += len(cases)
     big = [c for c in cases if c["note"]["kind"] == "hostile"]
     rep.sample({"hostile": {"fn": big[0]["fn"], "input": big[0]["input"], "expect": big[0]["expect"], "observed_alloc": outs[big[0]["id"]]["alloc"]}})
+    # (1b) depth: inputs made of very MANY small elements (200 000 records in one buffer, 8 000 messages in one record, 16 000 list
+    #      elements): a walk that recurses per element instead of looping exhausts the stack - the process dies, which nothing in-process
+    #      can report, so the orchestrator isolates the input by bisection (vlib.replay_cases) and reports it
+    za = {"len": 0, "ext": 0, "ct": 0, "ver": 0, "sub": ""}
+    rec = lambda ct, ver, body: [ct, ver >> 8, ver & 255, len(body) >> 8, len(body) & 255] + body
+    drec = lambda ct, k, body: [ct, 254, 253, 0, 0, 0, 0, (k >> 24) & 255, (k >> 16) & 255, (k >> 8) & 255, k & 255, len(body) >> 8, len(body) & 255] + body
+    many_n = 400000 if thorough else 120000
+    drecs = lambda ct, n, body: [x for k in range(n) for x in drec(ct, k, body)]
+    cert_list = [0, 0, 0] * 20000
+    cert_body = [len(cert_list) >> 16, (len(cert_list) >> 8) & 255, len(cert_list) & 255] + cert_list
+    deep = [("tls_parser_many", rec(21, 0x0303, [1, 0]) * many_n),
+            ("tls_parser_many", rec(20, 0x0303, [1]) * (many_n // 2) + [22, 3]),
+            ("parse_dtls_plaintext_records", drecs(20, many_n, [1])),
+            ("parse_dtls_plaintext_records", drecs(21, many_n // 2, [2, 40]) + [1, 2, 3]),
+            ("parse_tls_plaintext", rec(22, 0x0303, [14, 0, 0, 0] * 4160)),
+            ("parse_tls_plaintext", rec(21, 0x0301, [1, 0] * 8320)),
+            ("parse_dtls_plaintext_record", drec(21, 7, [1, 0] * 8320)),
+            ("parse_tls_extensions", [0, 23, 0, 0] * 16383),
+            ("parse_tls_message_handshake", [11, len(cert_body) >> 16, (len(cert_body) >> 8) & 255, len(cert_body) & 255] + cert_body),
+            ("parse_named_groups", [0, 23] * 32767)]
+    dcases = [{"id": "deep%d" % k, "fn": fn, "a": za, "input": [{"lit": b, "fill": [0, 0, 0]}], "expect": {"k": "any", "p": -1, "v": [], "n": 0, "e": ""}, "pin": "none",
+               "note": {"kind": "deep", "elements": fn}} for k, (fn, b) in enumerate(deep)]
+    douts = vlib.replay_cases(binary, vlib.workdir(PROP, "deep"), dcases, name="deep")
+    vlib.judge_cases(rep, dcases, douts, keyf=lambda c: "deep:%s:%s" % (c["fn"], c["id"]))
     # (2) exhaustive: ALL inputs of length <= 2 over all 256 byte values for every entry point and argument variant
     x2 = os.path.join(d, "x2.ndjson")
     rc, err = vlib.run_harness(binary, ["exhaust2", x2])
